@@ -1,4 +1,36 @@
 from vf import Lemma
+import native, re
+
+STRICT, NASM, SMART = 0, 1, 2
+def spec(setter, o, v):
+    mov = lambda o, v: ((o | 1) & ~2) if v == NASM else (o & ~3) if v == STRICT else ((o | 2) & ~1) if v == SMART else o
+    swap = lambda o, v: (o | 4) if v == NASM else (o & ~4) if v == STRICT else o
+    nob = lambda o, v: (o | 8) if v == NASM else (o & ~8) if v == STRICT else o
+    sib = lambda o, v: nob(swap(o, v), v) if v in (NASM, STRICT) else o
+    allo = lambda o, v: mov(sib(o, v), v) if v in (NASM, STRICT) else mov(o, SMART) if v == SMART else o
+    return {"mov": mov, "swap": swap, "nobase": nob, "sib": sib, "all": allo}[setter](o, v) & 0xff
+
+
+def setter_replay(setter):
+    """native confirmation: from each of the 12 reachable option states, call the real setter with each of a set of
+    option values (documented and undocumented) and compare the stored byte with the documented overwrite"""
+    def fn(l, failure):
+        for m in (STRICT, NASM, SMART):
+            for sw in (STRICT, NASM):
+                for nb in (STRICT, NASM):
+                    for v in (0, 1, 2, 3, -1, 7, 255, 256):
+                        script = "create 64\nopt mov %d\nopt swap %d\nopt nobase %d\nstate\nopt %s %d\nstate\n" % (m, sw, nb, setter, v)
+                        rc, out = native.run_drv(script)
+                        st = re.findall(r"opt=(\d+)", out or "")
+                        if rc is None or len(st) != 2:
+                            return {"reproduced": False, "error": (out or "")[-200:]}
+                        before, after = int(st[0]), int(st[1])
+                        if after != spec(setter, before, v):
+                            return {"reproduced": True, "cmd": "printf '%s' | %s" % (script.replace("\n", "\\n"), native.drv()[1]),
+                                    "output": "option byte %d, %s(%d) -> %d, documented: %d" % (before, setter, v, after, spec(setter, before, v)), "fail_regex": ".",
+                                    "text": {"history": script.replace("\n", " | ")}}
+        return {"reproduced": False, "note": "native probe of 96 (state, value) pairs found no deviation"}
+    return fn
 
 
 
@@ -8,12 +40,12 @@ def lemmas():
     out = []
     for f in leaf:
         out.append(Lemma(name="C12." + f, src="c12.c", entry="h_" + f, props=["C12", "C15", "C18"], enforce=[R(f)],
-                         functions=[f], timeout=120,
+                         functions=[f], timeout=120, replay=setter_replay({"asm_mov_imm": "mov", "asm_sib_index_base_swap": "swap", "asm_sib_no_base": "nobase"}[f]),
                          desc="%s: new option byte == documented overwrite of its dimension, every other value a no-op, assigns only al->assembly_opt" % f))
     out.append(Lemma(name="C12.asm_sib", src="c12.c", entry="h_asm_sib", props=["C12", "C15", "C18"], enforce=[R("asm_sib")],
-                     replace=[R("asm_sib_index_base_swap"), R("asm_sib_no_base")], functions=["asm_sib"], timeout=120,
+                     replace=[R("asm_sib_index_base_swap"), R("asm_sib_no_base")], functions=["asm_sib"], timeout=120, replay=setter_replay("sib"),
                      desc="asm_sib == swap then no-base for NASM/STRICT, no-op otherwise (callees by contract)"))
     out.append(Lemma(name="C12.asm_set_all", src="c12.c", entry="h_asm_set_all", props=["C12", "C15", "C18"], enforce=[R("asm_set_all")],
-                     replace=[R(f) for f in leaf], functions=["asm_set_all"], timeout=120,
+                     replace=[R(f) for f in leaf], functions=["asm_set_all"], timeout=120, replay=setter_replay("all"),
                      desc="asm_set_all == man-page expansion (swap, no-base, mov-imm for NASM/STRICT; mov-imm only for SMART)"))
     return out
